@@ -364,7 +364,15 @@ type c11Wire struct {
 	segrem      int // bytes left of the current segment; -1 unlimited
 	nreads      int
 	eofData     bool
-	eofWithData int // Reads that returned data together with io.EOF
+	eofWithData int   // Reads that returned data together with io.EOF
+	rerr        error // the error the reading side ends with (nil: io.EOF); see c11fault.go
+}
+
+func (w *c11Wire) endErr() error {
+	if w.rerr != nil {
+		return w.rerr
+	}
+	return io.EOF
 }
 
 func newC11Wire(segs []c11Seg, eofData bool) *c11Wire {
@@ -457,7 +465,7 @@ func (w *c11Wire) read(p []byte) (int, error) {
 	}
 	avail := len(w.buf) - w.off
 	if avail == 0 {
-		return 0, io.EOF
+		return 0, w.endErr()
 	}
 	n := want
 	if avail < n {
@@ -474,7 +482,7 @@ func (w *c11Wire) read(p []byte) (int, error) {
 	}
 	if w.eofData && w.total >= 0 && w.off >= w.total {
 		w.eofWithData++
-		return n, io.EOF
+		return n, w.endErr()
 	}
 	return n, nil
 }
@@ -1999,5 +2007,8 @@ func runC11(c *Ctx) error {
 		}
 		restore()
 	}
+	// transport faults (c11fault.go): a Write error / short write at chunk k, a Read error / EOF after p bytes
+	c11WriteFaultFamily(c)
+	c11ReadFaultFamily(c)
 	return nil
 }
